@@ -30,6 +30,61 @@ def load_variants():
         return json.load(f)['variants']
 
 
+def rename_locals(src):
+    """Rename function-local variables (not parameters, not names touched by
+    nested scopes) to <name>_rn9: a behaviour-preserving edit that defeats any
+    rule keyed on a local's spelling."""
+    import ast
+    tree = ast.parse(src)
+    SCOPES = (ast.FunctionDef, ast.AsyncFunctionDef, ast.Lambda, ast.ListComp,
+              ast.SetComp, ast.DictComp, ast.GeneratorExp, ast.ClassDef)
+
+    def own(node):
+        stack = list(ast.iter_child_nodes(node))
+        while stack:
+            n = stack.pop()
+            yield n
+            if isinstance(n, SCOPES):
+                continue
+            stack.extend(ast.iter_child_nodes(n))
+
+    for fn in [n for n in ast.walk(tree) if isinstance(
+            n, (ast.FunctionDef, ast.AsyncFunctionDef))]:
+        params = {a.arg for a in fn.args.posonlyargs + fn.args.args +
+                  fn.args.kwonlyargs}
+        if fn.args.vararg:
+            params.add(fn.args.vararg.arg)
+        if fn.args.kwarg:
+            params.add(fn.args.kwarg.arg)
+        stored, banned = set(), set(params)
+        for n in own(fn):
+            if isinstance(n, ast.Name) and isinstance(n.ctx, ast.Store):
+                stored.add(n.id)
+            elif isinstance(n, (ast.Global, ast.Nonlocal)):
+                banned |= set(n.names)
+            elif isinstance(n, ast.ExceptHandler) and n.name:
+                banned.add(n.name)
+            elif isinstance(n, (ast.Import, ast.ImportFrom)):
+                for a in n.names:
+                    banned.add((a.asname or a.name).split('.')[0])
+            elif isinstance(n, (ast.FunctionDef, ast.AsyncFunctionDef,
+                                ast.ClassDef)):
+                banned.add(n.name)
+            if isinstance(n, SCOPES):
+                # anything mentioned inside a nested scope is left alone
+                for x in ast.walk(n):
+                    if isinstance(x, ast.Name):
+                        banned.add(x.id)
+                    elif isinstance(x, ast.arg):
+                        banned.add(x.arg)
+        # decorators/defaults are evaluated outside
+        todo = {n for n in stored - banned if not n.startswith('__')}
+        for n in own(fn):
+            if isinstance(n, ast.Name) and n.id in todo:
+                n.id = n.id + '_rn9'
+    return ast.unparse(tree) + '\n'
+
+
 def _transform(dst, how):
     """Whole-tree behaviour-preserving rewrites."""
     import ast
@@ -44,6 +99,8 @@ def _transform(dst, how):
                 # re-print every module from its AST: comments, layout, quote
                 # style, parenthesisation and line numbers all change
                 new = ast.unparse(ast.parse(src)) + '\n'
+            elif how == 'rename':
+                new = rename_locals(src)
             elif how == 'shift':
                 # push every line down (line numbers change, nothing else)
                 new = '# moved\n' * 7 + src if not src.startswith('#!') else \
@@ -136,7 +193,7 @@ def run_variant(v, repo):
 def run_for_property(prop, repo, seed=0, jobs=None):
     variants = [v for v in load_variants() if v['property'] == prop]
     # two whole-tree behaviour-preserving rewrites for every property
-    for how in ('unparse', 'shift'):
+    for how in ('unparse', 'shift', 'rename'):
         variants.append({'id': '%s-benign-%s-all' % (prop.lower(), how),
                          'property': prop, 'kind': 'benign', 'edits': [],
                          'transform': how, 'expect': None, 'clears': None,
